@@ -140,6 +140,9 @@ def run(ctx):
     # index roles of the dependence table (rows world, columns pixel) are a necessary condition here as well
     from .C15 import rule_e as _roles
     ctx.guard(_roles, BorrowedCtx(ctx, {'C15.e': 'C16.f'}), ix, True)
+    # ... and so is the exactness of the dependence table itself (a coupling that is dropped makes a bound a wildcard)
+    from .C15 import rule_d as _table
+    ctx.guard(_table, BorrowedCtx(ctx, {'C15.d': 'C16.g'}), ix)
 
 
 def _names(expr, func_node=None, _depth=0):
